@@ -8,6 +8,7 @@ from torchphysics.problem.spaces.points import Points
 from symtorch.harness import Case
 from oracle import sets as O
 from . import shapes as SH
+from symtorch import ops_c08 as _ops_c08  # noqa: F401  (registers the diag_embed kernel used by torch.diag)
 
 META = dict(
     level="model_checking",
@@ -194,7 +195,7 @@ def _box_rows(box, shape, d, nrows):
     additionally read row-wise so that the enclosure claim itself is still examined."""
     if shape == [2 * d]:
         return [box] * nrows
-    if len(shape) == 2 and shape[1] == 2 * d and shape[0] in (1, nrows):
+    if len(shape) == 2 and shape[1] == 2 * d and (shape[0] == 1 or shape[0] >= nrows):
         return [box[min(i, shape[0] - 1)] for i in range(nrows)]
     return None
 
@@ -245,50 +246,36 @@ def encloses_case(name, mk, info, k, mode="ite", boundary=False, **kw):
                 params=dict(shape=name, k=k, boundary=boundary, minmax=mode, **info), **b)
 
 
-def lead_case():
-    """the unit square rotated by 45 degrees about the origin (all parameters concrete, query point symbolic)"""
-    import math
+def fixed_angle_case(name, which):
+    """Rotate.from_angles by a fixed angle: 'lead' = the unit square rotated by 45 degrees about the origin;
+    'quarter<j>' = a symbolic parallelogram rotated by j*pi/2 about a symbolic point (boxes are mapped to boxes,
+    so the rule of rotating two opposite corners is exact there)"""
 
     def body(env):
-        X = tp.spaces.R2("x")
-        sq = tp.domains.Parallelogram(X, [0, 0], [1, 0], [0, 1])
-        dom = tp.domains.Rotate.from_angles(sq, math.pi / 4)
         L = env.L
-        osq = O.OParallelogram([0, 0], [1, 0], [0, 1])
-        orot = O.ORotate2D(osq, lambda prm: L.cossin(math.pi / 4), [0, 0])
-        box = dom.bounding_box()
-        q = SH.elems(env, env.tensor("q", (2,)))
-        return dict(box=box, shape=list(box.shape), q=q, mem=[orot.closure(q, {}, L, 0)], d=2)
-
-    def goals(o, L, env):
-        yield from _enclosure_goals(o, L, 2)
-
-    return Case("encloses/Rotate45(unit square)/k0", body, goals, family="encloses/Rotate45(unit square)",
-                params=dict(shape="unit square rotated by pi/4"), **_BOUNDS)
-
-
-def quarter_turn_case(j):
-    """rotations by multiples of pi/2 map boxes to boxes: here the two-corner rule is exact"""
-    import math
-
-    def body(env):
-        a = SH.parallelogram(env, tag="A")
-        L = env.L
-        env.assume(a.oset.positive({}, L))
-        ar = SH.Aff(env, "rotp", 2, None)
-        dom = tp.domains.Rotate.from_angles(a.dom, j * math.pi / 2, rotate_around=ar.tp())
-        cs = [(1, 0), (0, 1), (-1, 0), (0, -1)][j % 4]
-        orot = O.ORotate2D(a.oset, lambda prm: cs, ar.oracle())
+        if which == "lead":
+            X = tp.spaces.R2("x")
+            sq = tp.domains.Parallelogram(X, env.const([0.0, 0.0]), env.const([1.0, 0.0]), env.const([0.0, 1.0]))
+            a = SH.Sh("UnitSquare", sq, O.OParallelogram([0, 0], [1, 0], [0, 1]), [], [("x", 2)])
+            r = rotate_r(env, a, "angle", around=False)
+            c, s = r.oset.cs({})
+            env.assume(L.And(L.eq(c, s), L.gt(c, 0)))  # the angle pi/4
+        else:
+            a = SH.parallelogram(env, tag="A")
+            env.assume(a.oset.positive({}, L))
+            r = rotate_r(env, a, "angle")
+            c, s = r.oset.cs({})
+            cj, sj = [(1, 0), (0, 1), (-1, 0), (0, -1)][int(which[-1]) % 4]
+            env.assume(L.And(L.eq(c, cj), L.eq(s, sj)))
         with minmax_mode(env, "ite"):
-            box = dom.bounding_box()
+            box = r.dom.bounding_box()
         q = SH.elems(env, env.tensor("q", (2,)))
-        return dict(box=box, shape=list(box.shape), q=q, mem=[orot.closure(q, {}, L, 0)], d=2)
+        return dict(box=box, shape=list(box.shape), q=q, mem=[r.oset.closure(q, {}, L, 0)], d=2)
 
     def goals(o, L, env):
         yield from _enclosure_goals(o, L, 2)
 
-    return Case("encloses/Rotate%d(Parallelogram)/k0" % (90 * j), body, goals, family="encloses/RotateQuarter(Parallelogram)",
-                params=dict(shape="Parallelogram rotated by %d*pi/2" % j), **_BOUNDS)
+    return Case("encloses/%s/k0" % name, body, goals, family="encloses/" + name, params=dict(shape=name, which=which), **_BOUNDS)
 
 
 # --------------------------------------------------------------------------
@@ -542,16 +529,14 @@ def _catalog(tier):
         if name.startswith("Rotate"):
             continue
         out.append((name, mk, info))
-    kinds = ("Circle", "Parallelogram") + (("Triangle",) if tier == "thorough" else ())
+    kinds = ("Circle",) + (("Parallelogram", "Triangle") if tier == "thorough" else ())
     for kind in kinds:
-        for how in ("matrix", "angle"):
-            if how == "angle" and kind == "Triangle":
+        for how in ("matrix", "angle", "matrix[t]"):
+            if how != "matrix" and kind == "Triangle":
                 continue
             out.append(("Rotate<%s>(%s)" % (how, kind),
                         (lambda env, kind=kind, how=how: rotate_r(env, SH.PRIMS[kind](env, tag="A"), how)),
-                        dict(fam="transform", rot=how)))
-    out.append(("Rotate<matrix[t]>(Parallelogram)", lambda env: rotate_r(env, SH.parallelogram(env, tag="A"), "matrix[t]"),
-                dict(fam="transform", dep=True, rot="matrix[t]")))
+                        dict(fam="transform", rot=how, dep=(how == "matrix[t]"))))
     if tier == "thorough":
         out.append(("Rotate<matrix>((Circle&Parallelogram))",
                     lambda env: rotate_r(env, SH.inter(SH.circle(env, tag="A"), SH.parallelogram(env, tag="B")), "matrix"),
@@ -577,9 +562,9 @@ def cases(tier):
         if prim and poly and (not quick or not dep):
             # the same claim with the builtin min()/max() forking one path per ordering
             cs.append(encloses_case(name, mk, info, 1 if dep else 0, mode="fork", max_paths=400))
-    cs.append(lead_case())
+    cs.append(fixed_angle_case("Rotate45(unit square)", "lead"))
     for j in ((1,) if quick else (1, 2, 3)):
-        cs.append(quarter_turn_case(j))
+        cs.append(fixed_angle_case("Rotate%d(Parallelogram)" % (90 * j), "quarter%d" % j))
     # the boundary's box is the domain's box
     for name, mk, info in cat:
         if info.get("fam") == "prim" and name in ("Circle", "Interval"):
@@ -608,8 +593,8 @@ def cases(tier):
     cs.append(set_box_case(False))
     cs.append(set_box_case(True))
     reps_q = ("Interval", "Circle", "Parallelogram", "(Circle+Parallelogram)", "(Interval-Interval)", "(Circle*Interval)",
-              "Translate(Circle)", "Rotate<matrix>(Parallelogram)")
-    reps_t = reps_q + ("Triangle", "Sphere", "(Circle-Parallelogram)", "(Circle&Parallelogram)", "Rotate<angle>(Circle)",
+              "Translate(Circle)", "Rotate<matrix>(Circle)")
+    reps_t = reps_q + ("Triangle", "Sphere", "(Circle-Parallelogram)", "(Circle&Parallelogram)", "Rotate<matrix>(Parallelogram)",
                        "Translate(Parallelogram)", "(Interval+Interval)", "(Interval&Interval)", "(Parallelogram*Interval)")
     for name, mk, info in cat:
         if name in (reps_q if quick else reps_t) and not _is_dep(info, name):
